@@ -79,6 +79,17 @@ def run(ctx):
                     return HDKey(k.wif_public()).subkey_for_path('/'.join(b))
                 cases.append(('bip32_split %s %s %s' % (seed.hex(), '/'.join(p1), '/'.join(b)), attempt(split_h), True))
                 cases.append(('bip32 %s M/%s' % (seed.hex(), b[0]), attempt(lambda: master.subkey_for_path('M/' + b[0])), True))
+        # relative derivation on a derived PRIVATE key (two steps on objects) and through `.public()` (no string export in between)
+        for _ in range(4 if T else 2):
+            a = ['m'] + [rand_item(allow_big=False) for _ in range(rng.randint(1, 3))]
+            b = [rand_item(allow_big=False) for _ in range(rng.randint(1, 3))]
+            cases.append(('bip32 %s %s' % (seed.hex(), '/'.join(a + b)),
+                          attempt(lambda: master.subkey_for_path('/'.join(a)).subkey_for_path('/'.join(b))), True))
+            b2 = [rand_item(allow_hard=False, allow_big=False) for _ in range(rng.randint(1, 3))]
+            cases.append(('bip32_split %s %s %s' % (seed.hex(), '/'.join(a), '/'.join(b2)),
+                          attempt(lambda: master.subkey_for_path('/'.join(a)).public().subkey_for_path('/'.join(b2))), True))
+            cases.append(('bip32_split %s %s %s' % (seed.hex(), '/'.join(a), '/'.join(b2)),
+                          attempt(lambda: master.subkey_for_path('/'.join(a)).subkey_for_path('M/' + '/'.join(b2))), True))
         # direct calls at the boundaries
         for i in (0, 1, 2**31 - 1, 2**31, 2**31 + 1, 2**32 - 1):
             cases.append(('bip32_split %s m %d' % (seed.hex(), i), attempt(lambda: master.public().child_public(i)), True))
